@@ -69,7 +69,10 @@ def c14_linear(ctx, form, kind):
     m = darsia.ScalingModel(scaling=s) if kind == "scaling" else darsia.LinearModel(scaling=s, offset=o)
     off = 0 if kind == "scaling" else o
     x, y = sig(ctx, form, "x"), sig(ctx, form, "y")
-    ctx.ensure("model(x) == scaling * x + offset", eq(m(x), s * x + off))
+    # ScalingModel treats a scaling within np.isclose's default tolerance of one AS one (designed shortcut, found by the guard probes): the
+    # specified value is then the signal itself; everywhere else it is scaling * x exactly
+    unit = kind == "scaling" and not ctx.sym and bool(np.isclose(s, 1.0))
+    ctx.ensure("model(x) == scaling * x + offset  (a scaling model whose scaling is within isclose tolerance of 1 returns x)", eq(m(x), x if unit else s * x + off))
     a = ctx.real("a", sample=(-1.0, 2.0))
     ctx.ensure("affine: model(a x + (1-a) y) == a model(x) + (1-a) model(y)", eq(m(a * x + (1 - a) * y), a * m(x) + (1 - a) * m(y)))
     p = ctx.reals("p", 2, sample=(-1.0, 2.0))
@@ -82,7 +85,8 @@ def c14_linear(ctx, form, kind):
     else:
         for dofs in (None, "all", ["scaling"]):
             m.update_model_parameters(np.array(p), dofs)
-            ctx.ensure(f"update_model_parameters(dofs={dofs!r}) sets the scaling", eq(m(x), p[0] * x))
+            unit_p = not ctx.sym and bool(np.isclose(p[0], 1.0))
+            ctx.ensure(f"update_model_parameters(dofs={dofs!r}) sets the scaling", eq(m(x), x if unit_p else p[0] * x))
 
 
 def _mk(ctx, kind, tag):
